@@ -9,6 +9,7 @@ mod c11;
 mod c12;
 mod synth;
 mod c13;
+mod c16;
 
 fn main() {
     fvcore::quiet_panics();
@@ -23,6 +24,7 @@ fn main() {
         Some("c11") => c11::main(&args[1..]),
         Some("c12") => c12::main(&args[1..]),
         Some("c13") => c13::main(&args[1..]),
+        Some("c16") => c16::main(&args[1..]),
         _ => {
             eprintln!("usage: fv-write <c06|...> ...");
             std::process::exit(2);
